@@ -184,6 +184,10 @@ EVAL_UP_TO_SEQUENCES = [
     # eval-up-to before anything was called, on a never-defined function, in a body that fails, at offsets outside the text
     [_up_to(_F2, "y: Int"), _up_to("fun g(a) { nosuch(a) }", "nosuch"), {"method": "eval_up_to", "src": _F1, "offset": 4000}, {"method": "eval_up_to", "src": "", "offset": 0}, "40 + 2"],
     [_F2, "add(1, 2)", _up_to(_F1, "x: Int"), _up_to(_F1, "x + 1"), "add(1, 2)", "40 + 2"],
+    # eval-up-to in a file the session has not seen: toplevel expressions that read variables, a function, a method
+    [dict(_up_to("let v = 1\nv + 1\n", "v + 1"), path="/tmp/unseen_a.gdn"), "40 + 2"],
+    [dict(_up_to("println(\"x\")\n", "println"), path="/tmp/unseen_b.gdn"), dict(_up_to(_F1, "x + 1"), path="/tmp/unseen_c.gdn"),
+     dict(_up_to(_M1, "this + 1"), path="/tmp/unseen_d.gdn"), dict(_up_to("nosuch_variable\n", "nosuch"), path="/tmp/unseen_e.gdn"), "40 + 2"],
 ]
 BOUNDED.append({"name": "eval_up_to_sequences", "kind": "session-alive", "props": ["C09"], "input": EVAL_UP_TO_SEQUENCES, "n_inputs": len(EVAL_UP_TO_SEQUENCES),
                 "bound": "%d request sequences with eval_up_to requests on parameters and expressions of functions / methods that were called with another number of arguments, never called, or not defined: every request answered, no panic, the last request (40 + 2) answered with 42" % len(EVAL_UP_TO_SEQUENCES),
